@@ -7,3 +7,15 @@ NA["C08"] = ("name resolution is decided entirely inside compile() (String joins
 NA["C09"] = ("every clause needs the VM running script callbacks over heap tables (ForEach + DynamicCall + SetProperty per element, "
              "or run_function re-entry plus sort_by); whole-VM runs beyond ~5 dispatches and table histories beyond one operation do not "
              "close under Kani/CBMC (DESIGN.md §0); the comparator is covered by C19, table operations by C07, re-entry by C18")
+NA["C02"] = ("the collector's mark phase does not close under Kani/CBMC: RuntimeData::gc pops `&mut CaoLangObject` from a worklist and "
+             "matches on the body of a heap object that was allocated as raw bytes, so CBMC explores every body kind (table iteration, "
+             "closure upvalue lists, ...) for every worklist entry; measured: gc() on a heap of ONE rooted object, two strings with "
+             "solver-chosen roots, table->string, closure->upvalue->string, StringLiteral under a forced-collection schedule (function "
+             "level and through _run): all nine harnesses time out at 600 s / 3-8 GB (only 'gc() frees one unreachable function object' "
+             "closes, registered under C05). The harnesses are kept as tier x in harness/src/c02.rs; run natively under the quarantine hook "
+             "they reproduce two rooting gaps (DESIGN.md 3, 'noted'), but a native run is not a solver verdict, so no claim is made")
+NA["C11"] = ("the round-trip goes through serde format crates (serde_json / ciborium / bincode / serde_yaml: byte-wise parsers whose loops "
+             "grow with the input) and, for programs, through compile(); neither closes under Kani/CBMC. The hand-written map visitors "
+             "of CaoHashMap/HandleTable were driven through an in-memory serde back end: with zero entries they close (2 harnesses), with "
+             "one or more entries (deserializer insert + growth on Value/String payloads) all ten harnesses time out or run out of "
+             "memory (DESIGN.md 0); a claim restricted to empty maps would say nothing about the property")
